@@ -26,13 +26,14 @@ class Clause:
 
 
 class Raises:
-    def __init__(self, exc, label, when, role="prop", props=None, pre_state=False):
+    def __init__(self, exc, label, when, role="prop", props=None, pre_state=False, call_when=None):
         self.exc = exc        # exception class *name*
         self.label = label
         self.when = when      # fn(c, a) -> Bool : raised  <=>  when
         self.role = role
         self.props = props
         self.pre_state = pre_state   # evaluate `when` on the arguments before the call (they may be mutated)
+        self.call_when = call_when   # at call sites (contract cut): condition under which the callee raises
 
 
 class LoopSpec:
